@@ -130,15 +130,44 @@ def events(darsia, rng, shapes, quick, arrangements):
             shp = s + ({"scalar": (), "vector": (3,), "series": (2,)}[kind])
             a = rand_arr(rng, shp, rng.choice(dtypes)) + 1
             img = image(darsia, a, [1.0, 1.0], kind)
+            a_before = a.copy()
             with warnings.catch_warnings():
                 warnings.simplefilter("ignore")
-                out = rz(img)
+                # the same target through the other entry points: a reference image of the target shape, the function wrapper
+                how = "object" if cons else rng.choice(["object", "ref_image", "function", "function_ref"])
+                if how == "object":
+                    out = rz(img)
+                else:
+                    ref = image(darsia, np.zeros(tgt), [1.0, 1.0], "scalar")
+                    if how == "ref_image":
+                        out = darsia.Resize(ref_image=ref, interpolation="inter_area")(img)
+                    elif how == "function":
+                        out = darsia.resize(img, shape=tgt, interpolation="inter_area")
+                    else:
+                        out = darsia.resize(img, ref_image=ref, interpolation="inter_area")
+            if not (np.array_equal(img.img, a_before) and img.img.dtype == a_before.dtype):
+                ev.append({"tid": f"resize-input:{i}", "op": "input", "what": "resize", "unchanged": 0})
             if cons:
                 rel = abs(float(out.img.sum()) - float(a.sum())) / float(a.sum())
             else:
                 rel = abs(integral(out) - integral(img)) / integral(img)
             ev.append({"tid": f"resize:{i}", "op": "resize_generic", "shape": list(s), "target": list(tgt), "conservative": int(cons), "consexp": exponent(rel), "dims_kept": dims_kept(img, out)})
             i += 1
+    # equalize_voxel_size: unifies the voxel side lengths and keeps the physical dimensions
+    for j in range(3 if quick else 20):
+        s2 = (rng.randint(2, 6), rng.randint(2, 6))
+        hh = [rng.choice([0.5, 0.25, 1.0]), rng.choice([0.5, 0.25, 1.0])]
+        a = rand_arr(rng, s2, "float64") + 1
+        img = image(darsia, a, hh)
+        a_before = a.copy()
+        with warnings.catch_warnings():
+            warnings.simplefilter("ignore")
+            out = darsia.equalize_voxel_size(img)
+        vs = [float(x) for x in out.voxel_size]
+        ev.append({"tid": f"equalize:{j}", "op": "equalize", "dims_kept": dims_kept(img, out), "uniform": int(abs(vs[0] - vs[1]) <= 1e-12 * max(vs)),
+                   "side_is_min": int(abs(vs[0] - min(hh)) <= 1e-12)})
+        if not np.array_equal(img.img, a_before):
+            ev.append({"tid": f"equalize-input:{j}", "op": "input", "what": "equalize_voxel_size", "unchanged": 0})
     # axis reduction by index and by Cartesian name
     for dim, shp in [(2, (2, 3)), (2, (3, 1)), (3, (2, 3, 2)), (3, (1, 2, 3))]:
         a = rand_arr(rng, shp, "float64")
